@@ -1,11 +1,16 @@
 //! vx-netk: engine E — turmoil-net kernel through the public shim, harness is the wire.
 
+mod life;
+mod rules;
+mod sock;
 mod tcpx;
 mod wire;
 
 use std::time::Duration;
 
 use serde_json::json;
+use life::{LifeCfg, LifeSys};
+use sock::{SockCfg, SockSys};
 use tcpx::{Mode, Pace, TcpCfg, TcpSys, Topo};
 use vx_core::report::{Report, Tier};
 use vx_core::{explore_bfs, BfsConfig};
@@ -294,6 +299,92 @@ fn c16_configs(tier: Tier) -> Vec<TcpCfg> {
     v
 }
 
+fn c17_configs(tier: Tier) -> Vec<SockCfg> {
+    let mk = |name: &str, v6: bool, depth: usize, udp: bool, tcp: bool, ports: Vec<u16>, h2: bool| SockCfg {
+        name: name.into(),
+        v6,
+        depth,
+        udp,
+        tcp,
+        ports,
+        h2_binds: h2,
+    };
+    let mut v = vec![
+        mk("v4-udp-d4", false, 4, true, false, vec![80], true),
+        mk("v4-tcp-d4", false, 4, false, true, vec![80], true),
+        mk("v6-mixed-d3-pq", true, 3, true, true, vec![80, 81], true),
+    ];
+    if tier == Tier::Thorough {
+        v.push(mk("v4-udp-d5-pq", false, 5, true, false, vec![80, 81], true));
+        v.push(mk("v4-tcp-d5", false, 5, false, true, vec![80], true));
+        v.push(mk("v4-mixed-d4-pq", false, 4, true, true, vec![80, 81], true));
+        v.push(mk("v6-tcp-d5", true, 5, false, true, vec![80], false));
+        v.push(mk("v4-udp-d6", false, 6, true, false, vec![80], false));
+    }
+    v
+}
+
+fn c13_configs(tier: Tier) -> Vec<LifeCfg> {
+    let mut v = vec![];
+    let mut add = |name: &str, f: &dyn Fn(&mut LifeCfg)| {
+        let mut c = LifeCfg::base(name);
+        f(&mut c);
+        v.push(c);
+    };
+    add("one-conn-D0", &|c| {
+        c.attempts = 1;
+        c.max_depth = if tier == Tier::Quick { 15 } else { 40 };
+    });
+    add("one-conn-D1-nowrite", &|c| {
+        c.attempts = 1;
+        c.drops = 1;
+        c.allow_write = false;
+        c.allow_listener_drop = false;
+    });
+    add("two-conn-D0-nowrite", &|c| {
+        c.attempts = 2;
+        c.allow_write = false;
+        c.allow_listener_drop = false;
+        c.max_depth = if tier == Tier::Quick { 19 } else { 40 };
+    });
+    add("refused-start", &|c| {
+        c.attempts = 2;
+        c.start_listening = false;
+        c.allow_write = false;
+        c.max_depth = if tier == Tier::Quick { 17 } else { 30 };
+    });
+    if tier == Tier::Thorough {
+        add("two-conn-D0", &|c| {
+            c.attempts = 2;
+            c.max_depth = 30;
+        });
+        add("three-conn-D0-nowrite", &|c| {
+            c.attempts = 3;
+            c.allow_write = false;
+            c.max_depth = 30;
+        });
+        add("one-conn-D2", &|c| {
+            c.attempts = 1;
+            c.drops = 2;
+            c.retx_max = 5;
+        });
+        add("two-conn-backlog2-D1", &|c| {
+            c.attempts = 2;
+            c.backlog = 2;
+            c.drops = 1;
+            c.allow_write = false;
+            c.max_depth = 28;
+        });
+        add("one-conn-D1-d2", &|c| {
+            c.attempts = 1;
+            c.drops = 1;
+            c.d = 2;
+            c.retx_max = 5;
+        });
+    }
+    v
+}
+
 fn main() {
     vx_core::install_quiet_panic_hook();
     let args: Vec<String> = std::env::args().collect();
@@ -330,6 +421,84 @@ fn main() {
             run_tcp_configs(&mut rep, c16_configs(tier), wall, cap);
             rep.finish();
         }
+        "C13" => {
+            let mut rep = Report::new("C13", tier, "model_checking", "netk");
+            rep.rule = "explicit-state BFS over lifecycle actions of both applications (connect / cancel / accept / write / shutdown / drop / listener drop / re-bind) interleaved with wire actions on the real stack; from every state the fair suffix closes everything, checks the socket/binding/connection tables through the cfg-guarded count hook and then re-uses every port and 4-tuple".into();
+            let (wall, cap) = tier.pick((Duration::from_secs(25), 4_000_000), (Duration::from_secs(900), 40_000_000));
+            let mut all_feats: Vec<String> = vec![];
+            for c in c13_configs(tier) {
+                let mut b = BfsConfig::new(&c.name);
+                b.scenario = c.describe();
+                b.bounds = c.describe();
+                b.wall = wall;
+                b.max_states = cap;
+                b.max_depth = c.max_depth;
+                let st = explore_bfs::<LifeSys>(&b, &c);
+                for s in st.samples.iter().take(1) {
+                    rep.sample(json!({"config": c.name, "history": s}));
+                }
+                all_feats.extend(st.features.iter().cloned());
+                rep.violations.extend(st.violations);
+                rep.add_part(st.part);
+            }
+            all_feats.sort();
+            all_feats.dedup();
+            let need = ["SynSent", "SynReceived", "Established", "FinWait1", "FinWait2", "CloseWait", "LastAck", "Closing"];
+            let missing: Vec<_> = need.iter().filter(|n| !all_feats.iter().any(|f| f == *n)).collect();
+            rep.extra.insert("tcp_states_visited".into(), json!(all_feats.iter().filter(|f| !f.contains(':')).collect::<Vec<_>>()));
+            rep.extra.insert("state_pairs_visited".into(), json!(all_feats.iter().filter(|f| f.starts_with("pair:")).count()));
+            rep.extra.insert("action_at_state_pairs_visited".into(), json!(all_feats.iter().filter(|f| f.starts_with("act:")).collect::<Vec<_>>()));
+            if !missing.is_empty() && rep.violations.is_empty() {
+                vx_core::machinery_error(&format!("C13 exploration is vacuous: TCP states never visited: {missing:?}"));
+            }
+            rep.finish();
+        }
+        "C17" => {
+            let mut rep = Report::new("C17", tier, "model_checking", "netk");
+            rep.rule = "explicit-state BFS over histories of bind / listen / udp-connect / tcp-connect(+accept) / close on two hosts (one with two addresses); every step compared with a reference socket table; from every state a probe sweep sends one tagged UDP datagram and one TCP connect from every host to every (address, port) and checks which socket observes it".into();
+            let (wall, cap) = tier.pick((Duration::from_secs(25), 2_000_000), (Duration::from_secs(900), 30_000_000));
+            for c in c17_configs(tier) {
+                let mut b = BfsConfig::new(&c.name);
+                b.scenario = c.describe();
+                b.bounds = c.describe();
+                b.wall = wall;
+                b.max_states = cap;
+                b.max_depth = c.depth + 1;
+                let st = explore_bfs::<SockSys>(&b, &c);
+                for s in st.samples.iter().take(1) {
+                    rep.sample(json!({"config": c.name, "history": s}));
+                }
+                rep.violations.extend(st.violations);
+                rep.add_part(st.part);
+            }
+            rep.finish();
+        }
+        "C19" => {
+            let mut rep = Report::new("C19", tier, "model_checking", "netk");
+            rep.rule = "stateless exhaustive enumeration of choice trees: (i) rule install/remove/send event sequences with per-rule verdict families on a hand-driven Net (decision clauses, all four install points), (ii) per-datagram send tick x verdict x destination inside fixture::ClientServer on the paused clock (timing clauses), (iii) fixture::lo with rules installed (loopback never shown)".into();
+            let (ev, n) = tier.pick((5usize, 3usize), (6, 5));
+            let mut d = vx_core::DfsConfig::new(&format!("decision-events{ev}-rules3"), 0);
+            d.wall = tier.pick(Duration::from_secs(30), Duration::from_secs(900));
+            let st = vx_core::explore_dfs(&d, |ch| rules::decision_scenario(ch, ev, 3));
+            for s in st.samples.iter().take(2) {
+                rep.sample(json!({"part": "decision", "choices": s}));
+            }
+            rep.violations.extend(st.violations);
+            rep.add_part(st.part);
+            let mut d = vx_core::DfsConfig::new(&format!("timing-clientserver-n{n}"), 0);
+            d.wall = tier.pick(Duration::from_secs(30), Duration::from_secs(900));
+            let st = vx_core::explore_dfs(&d, |ch| rules::timing_scenario(ch, n));
+            for s in st.samples.iter().take(2) {
+                rep.sample(json!({"part": "timing", "choices": s}));
+            }
+            rep.violations.extend(st.violations);
+            rep.add_part(st.part);
+            let d = vx_core::DfsConfig::new("lo-fixture", 0);
+            let st = vx_core::explore_dfs(&d, rules::lo_scenario);
+            rep.violations.extend(st.violations);
+            rep.add_part(st.part);
+            rep.finish();
+        }
         other => vx_core::machinery_error(&format!("vx-netk does not serve {other}")),
     }
 }
@@ -349,6 +518,78 @@ fn replay(path: &str) {
             all.extend(c16_configs(Tier::Quick));
         }
         _ => {}
+    }
+    if prop == "C13" {
+        let mut cs = c13_configs(Tier::Thorough);
+        cs.extend(c13_configs(Tier::Quick));
+        let Some(cfg) = cs.into_iter().find(|c| c.name == name) else {
+            vx_core::machinery_error(&format!("replay: unknown scenario {name} for {prop}"));
+        };
+        println!("replaying {prop} {}", cfg.describe());
+        let mut s = LifeSys::init(&cfg);
+        s.verbose = true;
+        for (i, &a) in choices.iter().enumerate() {
+            let a = a as u16;
+            println!("--- step {i}: {}", s.describe(a));
+            let r = vx_core::catch(|| s.apply(a));
+            println!("{}", s.trace_state());
+            match r {
+                Ok(Ok(())) => {}
+                Ok(Err(v)) => {
+                    println!("VIOLATION clause={} : {}", v.clause, v.detail);
+                    std::process::exit(1);
+                }
+                Err(p) => {
+                    println!("PANIC {p}");
+                    std::process::exit(1);
+                }
+            }
+        }
+        println!("--- fair suffix");
+        match s.finish().1 {
+            Some(v) => {
+                println!("VIOLATION clause={} : {}", v.clause, v.detail);
+                std::process::exit(1);
+            }
+            None => println!("no violation on this history"),
+        }
+        return;
+    }
+    if prop == "C17" {
+        let mut cs = c17_configs(Tier::Thorough);
+        cs.extend(c17_configs(Tier::Quick));
+        let Some(cfg) = cs.into_iter().find(|c| c.name == name) else {
+            vx_core::machinery_error(&format!("replay: unknown scenario {name} for {prop}"));
+        };
+        println!("replaying {prop} {}", cfg.describe());
+        let mut s = SockSys::init(&cfg);
+        s.verbose = true;
+        for (i, &a) in choices.iter().enumerate() {
+            let a = a as u16;
+            println!("--- step {i}: {}", s.describe(a));
+            let r = vx_core::catch(|| s.apply(a));
+            println!("{}", s.trace_state());
+            match r {
+                Ok(Ok(())) => {}
+                Ok(Err(v)) => {
+                    println!("VIOLATION clause={} : {}", v.clause, v.detail);
+                    std::process::exit(1);
+                }
+                Err(p) => {
+                    println!("PANIC {p}");
+                    std::process::exit(1);
+                }
+            }
+        }
+        println!("--- probe sweep");
+        match s.finish().1 {
+            Some(v) => {
+                println!("VIOLATION clause={} : {}", v.clause, v.detail);
+                std::process::exit(1);
+            }
+            None => println!("no violation on this history"),
+        }
+        return;
     }
     let Some(cfg) = all.into_iter().find(|c| c.name == name) else {
         vx_core::machinery_error(&format!("replay: unknown scenario {name} for {prop}"));
